@@ -265,9 +265,50 @@ static void lib_ok(int kind) {
 			bn_free(k); ep_free(p);
 			break;
 		}
-		default: {
+		case 3: {
 			uint8_t h[RLC_MD_LEN];
 			md_map(h, (const uint8_t *)"abc", 3);
+			break;
+		}
+		default: {
+			/* scalar multiplications with edge-case scalars (0, 1, n - 1, n, 2n, n + 1, -n, long): every
+			 * variant must leave the handler chain exactly as it found it, also on its early exits */
+			bn_t k, n;
+			ep_t p, q, r;
+			ep_t tab[RLC_EP_TABLE_MAX];
+			int cls = (kind / 16) % 8, fn = kind % 16;
+			bn_null(k); bn_null(n); ep_null(p); ep_null(q); ep_null(r);
+			bn_new(k); bn_new(n); ep_new(p); ep_new(q); ep_new(r);
+			for (int i = 0; i < RLC_EP_TABLE_MAX; i++) { ep_null(tab[i]); ep_new(tab[i]); }
+			ep_curve_get_ord(n);
+			switch (cls) {
+				case 0: bn_zero(k); break;
+				case 1: bn_set_dig(k, 1); break;
+				case 2: bn_sub_dig(k, n, 1); break;
+				case 3: bn_copy(k, n); break;
+				case 4: bn_dbl(k, n); break;
+				case 5: bn_add_dig(k, n, 1); break;
+				case 6: bn_neg(k, n); break;
+				default: bn_mul_dig(k, n, 77); bn_add_dig(k, k, 5); break;
+			}
+			ep_curve_get_gen(p); ep_dbl(p, p); ep_norm(p, p);
+			ep_curve_get_gen(q); ep_mul_dig(q, q, 5);
+			switch (fn) {
+				case 4: ep_mul_gen(r, k); break;
+				case 5: ep_mul(r, p, k); break;
+				case 6: ep_mul_sim_gen(r, k, q, k); break;
+				case 7: ep_mul_sim(r, p, k, q, k); break;
+				case 8: ep_mul_pre(tab, p); ep_mul_fix(r, (const ep_t *)tab, k); break;
+				case 9: ep_mul_basic(r, p, k); break;
+				case 10: ep_mul_slide(r, p, k); break;
+				case 11: ep_mul_monty(r, p, k); break;
+				case 12: ep_mul_lwreg(r, p, k); break;
+				case 13: ep_mul_pre_combs(tab, p); ep_mul_fix_combs(r, (const ep_t *)tab, k); break;
+				case 14: ep_mul_pre_lwnaf(tab, p); ep_mul_fix_lwnaf(r, (const ep_t *)tab, k); break;
+				default: ep_mul_sim_joint(r, p, k, q, k); break;
+			}
+			for (int i = 0; i < RLC_EP_TABLE_MAX; i++) { ep_free(tab[i]); }
+			bn_free(k); bn_free(n); ep_free(p); ep_free(q); ep_free(r);
 			break;
 		}
 	}
